@@ -410,7 +410,8 @@ def _pack(fmt, v):
     ve = as_int(v)
     if not E.cur().branch(z3.And(ve >= 0, ve < 256 ** w)):
         raise_(struct.error, 'argument out of range')
-    digits = [V.simp((ve / (256 ** k)) % 256) for k in range(w)]       # little-endian digits
+    from . import spec as _S
+    digits = [_S.quot(ve, k) % 256 for k in range(w)]       # little-endian digits
     if order in '>!':
         digits = digits[::-1]
     return V.seq_of_terms(digits, 'bytes')
